@@ -90,4 +90,23 @@ def emfFails (o : EmfObs) : List String :=
   (if o.fresh2 != 1 then ["episode2-listener-not-accepting-again"] else []) ++
   (if o.sh != "nil" then ["shutdown-after-episodes-" ++ o.sh] else [])
 
+/-- one stretch of descriptor exhaustion of a chosen length: accept fails with EMFILE `k` times in a row (a
+    `Listener` handed to `Serve` scripts the failures; everything else is the real code), `queued` clients connect
+    during the stretch, one more after it -/
+structure StretchObs where
+  k : Nat := 0
+  /-- the process died (a panic in a library goroutine cannot be recovered) before the stretch was over -/
+  crashed : Nat := 0
+  queued : Nat := 0
+  served : Nat := 0
+  fresh : Nat := 0
+deriving Repr
+
+/-- "accepting resumes once descriptors are available again", for a stretch of ANY length
+    (`C13_accept_resumes`, `C13_retry_index_in_table`, `C13_retry_resumes_after_any_stretch`) -/
+def stretchFails (o : StretchObs) : List String :=
+  (if o.crashed != 0 then ["process-died-during-exhaustion-accepting-never-resumes"] else []) ++
+  (if o.crashed == 0 && o.served != o.queued then ["queued-clients-not-served-after-exhaustion"] else []) ++
+  (if o.crashed == 0 && o.fresh != 1 then ["listener-not-accepting-again-after-exhaustion"] else [])
+
 end Netpoll.Server.Spec
